@@ -8,6 +8,9 @@ python3 tools/gen_constants.py /repo
 python3 tools/rs2v.py /repo
 # -k: a proof obligation that no longer checks (e.g. a constant of /repo that changed) is reported by the check of the
 # property it belongs to, not by the set-up
+# a dependency file left by an interrupted or concurrent run (e.g. a sandbox copy taken while coqdep was writing it) would make
+# every file compile out of order: always start from a fresh one
+rm -f coq/.Makefile.coq.d coq/Makefile.coq coq/Makefile.coq.conf
 ( cd coq && coq_makefile -f _CoqProject -o Makefile.coq && (timeout 3000 make -f Makefile.coq -j16 -k || echo 'setup: some Coq targets did not build; the checks will report them') )
 python3 - <<'PY'
 import sys
